@@ -110,12 +110,17 @@ def run_benign(prop, var, repo):
         shutil.rmtree(d, ignore_errors=True)
 
 
-def run_seed(prop, seed_dir, repo):
+def run_seed(prop, seed_dir, repo, benign_patch=None):
     """A recorded seeded change (seeded/<id>/patch.diff) replayed as in-memory overlays of the
-    files it touches: the property's rules must report a violation. Nothing is written to the repo."""
+    files it touches: the property's rules must report a violation. Nothing is written to the repo.
+    With benign_patch (canaries/benign_patches/<prop>/<name>.diff: a behaviour-preserving change that
+    spans several files) the expectation is reversed: the rules must stay silent."""
     sid = os.path.basename(seed_dir)
     res = {"name": "seed:" + sid, "kind": "seeded-change"}
     patch = os.path.join(seed_dir, "patch.diff")
+    if benign_patch:
+        patch = benign_patch
+        res = {"name": "patch:" + os.path.basename(benign_patch)[:-5], "kind": "benign"}
     files = [l[6:].strip() for l in open(patch) if l.startswith("+++ b/")]
     d = side_dir()
     try:
@@ -138,6 +143,11 @@ def run_seed(prop, seed_dir, repo):
             viol = json.load(open(vp))["violations"]
         if "type/parse errors" in out or "loader" in [v["rule"] for v in viol]:
             res.update(status="mutant-does-not-compile", detail=out[-400:])
+        elif benign_patch:
+            if rc == 0:
+                res.update(status="silent-as-expected")
+            else:
+                res.update(status="false-alarm", detail=[l for l in out.splitlines() if l.startswith("  violated")][:5])
         elif rc == 1 and viol:
             res.update(status="fired", reported=", ".join(sorted({v["rule"] + " " + v["construct"] for v in viol}))[:300])
         else:
@@ -195,12 +205,13 @@ def main():
     with ThreadPoolExecutor(max_workers=6) as ex:
         alt_f = [ex.submit(alt, a) for a in alts]
         can_f = [ex.submit(run_canary, prop, c, repo) for c in cans]
-        ben_f = [ex.submit(run_benign, prop, b, repo) for b in bens]
         import glob as _glob
+        ben_f = [ex.submit(run_benign, prop, b, repo) for b in bens]
         seed_f = [ex.submit(run_seed, prop, sd, repo) for sd in sorted(_glob.glob(os.path.join(VERIF, "seeded", prop + "-*")))]
         thorough["alt_configs"] = [f.result() for f in alt_f]
         thorough["canaries"] = [f.result() for f in can_f]
-        thorough["benign_variants"] = [f.result() for f in ben_f]
+        bp_f = [ex.submit(run_seed, prop, "", repo, bp) for bp in sorted(_glob.glob(os.path.join(VERIF, "canaries", "benign_patches", prop, "*.diff")))]
+        thorough["benign_variants"] = [f.result() for f in ben_f] + [f.result() for f in bp_f]
         thorough["seeded_changes"] = [f.result() for f in seed_f]
 
     for a in thorough["alt_configs"]:
